@@ -465,6 +465,10 @@ class Pass2(CompilePass):
                         EC.ARGUMENT_COUNT_MISMATCH,
                         node=func_node)
         for arg, arg_type in zip(func_node.args, arg_types):
+            if not (arg.type.is_builtin or arg.type.is_user_defined):
+                # an ill-typed argument expression (Type.UNKNOWN has
+                # no name to show)
+                raise CompileError(EC.TYPE_MISMATCH, node=arg)
             if isinstance(arg_type, Type):
                 if not arg.type.is_coercible_to(arg_type):
                     raise CompileError(
